@@ -394,7 +394,7 @@ PROPS = {
                   lambda prog, tier: tokens.run_lp(prog),
                   lambda prog, tier: tokens.run_sections(prog, "mpq_ILLwrite_lp", {"End"}, print_funcs={"mpq_ILLprint_report": 1}, token_ok=lambda t: t[0].isupper()),
                   lambda prog, tier: idxclass.run(prog, scope_units=("lp_mpq.c", "write_lp_mpq.c", "rawlp_mpq.c")),
-                  lambda prog, tier: sentinel.run(prog), lambda prog, tier: rescan.run(prog), lambda prog, tier: decacc.run(prog), lambda prog, tier: kwtable.run(prog), lambda prog, tier: hitused.run(prog), lambda prog, tier: defaults.run(prog), lambda prog, tier: defaults.run_bndflag(prog), lambda prog, tier: defaults.run_msgmeans(prog), lambda prog, tier: defaults.run_defaultpair(prog),
+                  lambda prog, tier: sentinel.run(prog), lambda prog, tier: rescan.run(prog), lambda prog, tier: decacc.run(prog), lambda prog, tier: kwtable.run(prog), lambda prog, tier: hitused.run(prog), lambda prog, tier: defaults.run(prog), lambda prog, tier: defaults.run_bndflag(prog), lambda prog, tier: defaults.run_msgmeans(prog), lambda prog, tier: defaults.run_defaultpair(prog), lambda prog, tier: pastcol.run_appendpos(prog),
                   lambda prog, tier: fullscan.run(prog, ["mpq_ILLwrite_lp"], ("lp_mpq.c", "write_lp_mpq.c"), floor=4),
                   lambda prog, tier: trunc.run(prog)],
         "technique": "lossy-conversion sink census over the writer and reader call-graph closures; writer/reader agreement of type-resolved "
@@ -417,7 +417,7 @@ PROPS = {
                   lambda prog, tier: tokens.run_mps(prog),
                   lambda prog, tier: tokens.run_sections(prog, "mpq_ILLwrite_mps", {"ENDATA"}, print_funcs={"mpq_ILLprint_report": 1}, token_ok=lambda t: t.isupper() and len(t) >= 2),
                   lambda prog, tier: idxclass.run(prog, scope_units=("mps_mpq.c", "rawlp_mpq.c")),
-                  lambda prog, tier: sentinel.run(prog), lambda prog, tier: appendinit.run(prog), lambda prog, tier: appendinit.run_repack(prog), lambda prog, tier: appendinit.run_remap(prog, shared_eff(prog)), lambda prog, tier: fmt.run_args(prog), lambda prog, tier: rescan.run(prog), lambda prog, tier: defaults.run(prog), lambda prog, tier: defaults.run_bndflag(prog), lambda prog, tier: defaults.run_msgmeans(prog), lambda prog, tier: defaults.run_defaultpair(prog),
+                  lambda prog, tier: sentinel.run(prog), lambda prog, tier: appendinit.run(prog), lambda prog, tier: appendinit.run_repack(prog), lambda prog, tier: appendinit.run_remap(prog, shared_eff(prog)), lambda prog, tier: fmt.run_args(prog), lambda prog, tier: rescan.run(prog), lambda prog, tier: defaults.run(prog), lambda prog, tier: defaults.run_bndflag(prog), lambda prog, tier: defaults.run_msgmeans(prog), lambda prog, tier: defaults.run_defaultpair(prog), lambda prog, tier: pastcol.run_appendpos(prog),
                   lambda prog, tier: fullscan.run(prog, ["mpq_ILLwrite_mps"], ("mps_mpq.c",), floor=6),
                   lambda prog, tier: fullscan.run_rowfilter(prog), lambda prog, tier: fullscan.run_rangepair(prog), lambda prog, tier: sensemap.run_rangealloc(prog), lambda prog, tier: trunc.run(prog)],
         "technique": "lossy-conversion sink census over writer/reader closures; table agreement (section names, bound mnemonics, row-type "
@@ -436,7 +436,7 @@ PROPS = {
         "rules": [lambda prog, tier: exact.run(prog, {"READ": {"roots": ["mpq_QSread_prob", "mpq_QSget_prob"], "closure": True, "word": True}},
                                                floors=[("exact literal parser reachable from QSread_prob", ["mpq_QSread_prob"], "mpq_EGlpNumReadStrXc", 1),
                                                        ("exact literal parser reachable from ILLget_value", ["mpq_ILLget_value"], "mpq_EGlpNumReadStrXc", 1)]),
-                  lambda prog, tier: rescan.run(prog), lambda prog, tier: decacc.run(prog), lambda prog, tier: defaults.run(prog), lambda prog, tier: defaults.run_bndflag(prog), lambda prog, tier: defaults.run_msgmeans(prog), lambda prog, tier: defaults.run_defaultpair(prog), lambda prog, tier: strscan.run(prog), lambda prog, tier: strscan.run_advance(prog),
+                  lambda prog, tier: rescan.run(prog), lambda prog, tier: decacc.run(prog), lambda prog, tier: defaults.run(prog), lambda prog, tier: defaults.run_bndflag(prog), lambda prog, tier: defaults.run_msgmeans(prog), lambda prog, tier: defaults.run_defaultpair(prog), lambda prog, tier: pastcol.run_appendpos(prog), lambda prog, tier: strscan.run(prog), lambda prog, tier: strscan.run_advance(prog),
                   lambda prog, tier: rawidx.run(prog), lambda prog, tier: digitseen.run(prog), lambda prog, tier: digitseen.run_expmark(prog), lambda prog, tier: stalechar.run(prog)],
         "technique": "lossy-conversion sink census over the reader call-graph closure of the rational instantiation (type-resolved, after "
                      "preprocessing: the #ifdef between the exact and the double literal reader is resolved as the build resolves it)",
@@ -547,7 +547,7 @@ PROPS = {
     "C17": {
         "rules": [lambda prog, tier: buf.run(prog),
                   lambda prog, tier: idx.run(prog), lambda prog, tier: idx.run_pubstruct(prog), lambda prog, tier: optptr.run(prog),
-                  lambda prog, tier: colen.run(prog), lambda prog, tier: pastcol.run(prog), lambda prog, tier: twopass.run(prog), lambda prog, tier: growguard.run(prog), lambda prog, tier: growguard.run_capsync(prog), lambda prog, tier: negidx.run(prog), lambda prog, tier: lpinit.run(prog),
+                  lambda prog, tier: colen.run(prog), lambda prog, tier: pastcol.run(prog), lambda prog, tier: pastcol.run_appendpos(prog), lambda prog, tier: twopass.run(prog), lambda prog, tier: growguard.run(prog), lambda prog, tier: growguard.run_capsync(prog), lambda prog, tier: negidx.run(prog), lambda prog, tier: lpinit.run(prog),
                   lambda prog, tier: idxclass.run(prog),
                   lambda prog, tier: lenclass.run(prog),
                   lambda prog, tier: lenclass.run_capacity(prog),
@@ -890,6 +890,11 @@ for _pid in ("C10", "C11"):
     _ADD[_pid]["explanation"] = _ADD[_pid].get("explanation", "") + (
         " (R-STALECHAR) no scanner compares a char local with a character constant at a point where every path has already established another "
         "value for it (the local still holds the character before the cursor moved: '=<' read as '=>').")
+for _pid in ("C08", "C09", "C10", "C17"):
+    _ADD.setdefault(_pid, {})
+    _ADD[_pid]["explanation"] = _ADD[_pid].get("explanation", "") + (
+        " (R-APPENDPOS) in functions that use the free tail of the column matrix or enlarge its arrays, every computed column start stored into "
+        "matbeg derives from matsize - matfree (the number of non-zeros is not a position: columns without entries own reserved slots).")
 _ADD.setdefault("C17", {})
 _ADD["C17"]["explanation"] = _ADD["C17"].get("explanation", "") + (
     " (R-CAPSYNC) a pointer field that is paired with a capacity field (some function allocates it with a computed length and stores that very "
